@@ -253,6 +253,13 @@ def r_select_workers(ctx):
         ok_dict = len(stores) == 1 and len(stores[0].loops) == 1 and norm(stores[0].loops[0][3]) == S("self.list_of_workers") \
             and stores[0].data["key"] == ("elem", stores[0].loops[0]) and stores[0].data["value"][0] == "z3var" \
             and stores[0].data["value"][1] == "Bool" and not stores[0].guards
+        if not ok_dict and not stores:
+            # the dict may be built as a whole (a dict comprehension) instead of filled key by key
+            from sa.values import PyDict
+            ents = sd.entries if isinstance(sd, PyDict) else []
+            ok_dict = len(ents) == 1 and len(ents[0][2]) == 1 and norm(ents[0][2][0][3]) == S("self.list_of_workers") \
+                and ents[0][0] == ("elem", ents[0][2][0]) and isinstance(ents[0][1], tuple) and ents[0][1][0] == "z3var" \
+                and ents[0][1][1] == "Bool" and not ents[0][3]
         if ok_dict:
             ctx.ok("R-PB-TABLE", f"{where} kind={kind}: one selection Boolean per listed worker")
         else:
